@@ -16,7 +16,9 @@ def generate():
         f'def controlActiveDefault : Bool := {lbool(bool(HasOutputModule.control_active.default))}',
         f'def controlActiveReadonly : Bool := {lbool(bool(HasOutputModule.control_active.readonly))}',
         f'def controlledByReadonly : Bool := {lbool(bool(HasControlledBy.controlled_by.readonly))}',
-        f'def insideRWInitial : Nat := {int(StructParam.insideRW)}',
+        f'def insideRWInitial : Nat := {_guard()[0]}',
+        '/-- the guard counter of a struct parameter is kept per thread: a thread inside an access does not change what another thread sees -/',
+        f'def insideRWPerThread : Bool := {lbool(_guard()[1])}',
         '/-- default of `omit_unchanged_within` in microseconds (frappy.params): not 0, so whether an unchanged value is announced again depends on timing -/',
         f'def omitUnchangedWithinDefaultUs : Nat := {int(round(float(_omit_default()) * 1e6))}',
     ]
@@ -26,3 +28,21 @@ def _omit_default():
     import frappy.params  # noqa: F401  (sets the default)
     from frappy.lib import generalConfig
     return generalConfig.defaults['omit_unchanged_within']
+
+
+def _guard():
+    """(the guard counter of a fresh StructParam as the creating thread sees it, whether another thread sees a counter of its own)"""
+    import threading
+    from frappy.core import FloatRange, Parameter
+    from frappy.extparams import StructParam
+    guard = StructParam('x', {'a': Parameter('a', FloatRange())}).insideRW
+    if isinstance(guard, int):
+        return guard, False
+    initial = int(guard.value)
+    guard.value += 1      # this thread is inside an access
+    seen = []
+    t = threading.Thread(target=lambda: seen.append(guard.value))
+    t.start()
+    t.join()
+    guard.value -= 1
+    return initial, seen == [initial]
